@@ -126,12 +126,31 @@ def check(tier, seed, replay=None):
             tri = []
             for _ in range(150 if tier == 'quick' else 5000):
                 dim = rng.choice([1, 2, 3, 8])
-                tri.append([[rng.uniform(-1, 1) for _ in range(dim)] for _ in range(3)])
+                if rng.random() < 0.5:
+                    tri.append([[rng.uniform(-1, 1) for _ in range(dim)] for _ in range(3)])
+                else:
+                    # three points close to each other and far from the origin: cancellation-prone formulas fail here
+                    off = rng.choice([1.0, 1e4, 1e8, 1e12]) * rng.choice([1, -1])
+                    eps = rng.choice([1.0, 1e-3, 1e-6])
+                    basep = [off * rng.uniform(0.5, 1) for _ in range(dim)]
+                    tri.append([[x + eps * rng.choice([0, 1, 2, -1, rng.uniform(-2, 2)]) for x in basep] for _ in range(3)])
             t2 = ''.join('d %d %s %s\n' % (len(p), ' '.join(str(bits(x)) for x in p), ' '.join(str(bits(x)) for x in q))
                          for a, b, c in tri for p, q in ((a, b), (b, c), (a, c), (a, [-x for x in a]), ([x * 8 for x in a], b)))
             l2, rc2, _ = run_harness(['dist'], t2)
             for i, (a, b, c) in enumerate(tri):
                 ab, bc, ac, opp, sc = [tuple(map(int, l.split()[1:3])) for l in l2[5 * i:5 * i + 5]]
+                # accuracy against the exact value (rational arithmetic): a few ulps for the textbook formula
+                from fractions import Fraction
+                bad_acc = None
+                for (p, q2), got in (((a, b), ab), ((b, c), bc), ((a, c), ac)):
+                    exact = math.sqrt(float(sum((Fraction(x) - Fraction(y)) ** 2 for x, y in zip(p, q2))))
+                    if exact > 1e-150 and abs(unbits(got[0]) - exact) > 1e-9 * exact:
+                        bad_acc = (p, q2, unbits(got[0]), exact)
+                if bad_acc:
+                    chk.violation({'engine': 'dist', 'what': 'Euclidean distance %r differs from the exact distance %r by more than 1e-9 relative' % (bad_acc[2], bad_acc[3]),
+                                   'cases': [{'a_bits': [bits(x) for x in bad_acc[0]], 'b_bits': [bits(x) for x in bad_acc[1]]}], 'signature': 'dist:accuracy'})
+                    nviol += 1
+                    break
                 if unbits(ac[0]) > (unbits(ab[0]) + unbits(bc[0])) * (1 + 1e-12):
                     chk.violation({'engine': 'dist', 'what': 'triangle inequality violated', 'cases': [{'a_bits': [bits(x) for x in a], 'b_bits': [bits(x) for x in c]}], 'signature': 'dist:triangle'})
                     nviol += 1
